@@ -35,7 +35,7 @@ def P(title, profiles, components, ops, text, theorems=(), module=None, level="p
 
 
 PROPS = {
-    "C01": P("custody", ["default", "queues", "big"], ["bank", "assets", "uq"], ALL_OPS,
+    "C01": P("custody", ["default", "queues", "big"], ["theorem.C01", "bank", "assets", "uq"], ALL_OPS,
              "custody invariant proved over the model for all histories; model tied to the code by per-step trace correspondence",
              module=None),
     "C02": P("unbonding payout", ["queues", "default"], ["uq", "ui", "bank", "clock"], ["undelegate", "endblock", "slash"],
